@@ -822,15 +822,17 @@ Definition sweep_all (ts : tables) : bool :=
 Lemma sweep_ok : on_fres the_tables sweep_all = true.
 Proof. vm_compute. reflexivity. Qed.
 
+Lemma on_fres_elim : forall (A : Type) (x : fres A) P a, on_fres x P = true -> x = FOk a -> P a = true.
+Proof. intros A x P a H E. subst x. exact H. Qed.
+Lemma on_fres_ok : forall (A : Type) (x : fres A) P, on_fres x P = true -> exists a, x = FOk a.
+Proof. intros A x P H. destruct x as [a| |]; try discriminate. exists a. reflexivity. Qed.
+
 Lemma sweep_elim : forall ts, the_tables = FOk ts -> sweep_all ts = true.
-Proof. intros ts H. pose proof sweep_ok as S. unfold on_fres in S. rewrite H in S. exact S. Qed.
+Proof. intros ts H. exact (on_fres_elim _ _ _ _ sweep_ok H). Qed.
 
 (* the tables exist: every row parses, every average is defined *)
 Theorem the_tables_built : exists ts, the_tables = FOk ts.
-Proof.
-  pose proof sweep_ok as S. unfold on_fres in S. destruct the_tables as [ts| |]; try discriminate.
-  exists ts. reflexivity.
-Qed.
+Proof. exact (on_fres_ok _ _ _ sweep_ok). Qed.
 
 Theorem the_tables_keys : forall ts, the_tables = FOk ts -> map fst ts = ["aa"; "dna"; "rna"]%string.
 Proof.
@@ -892,4 +894,48 @@ Proof.
   apply andb_prop in S. destruct S as [S Hr]. apply andb_prop in S. destruct S as [S Hd].
   apply andb_prop in S. destruct S as [S Ha].
   split; [|split]; apply avgs_elim; assumption.
+Qed.
+
+(* ================================================================ 12. corollaries for Sequence objects *)
+(* a Sequence's densities are its masses over its (summed) cell volume *)
+Theorem sequence_density : forall E tab name s sm, sequence_of E tab name s = FOk sm ->
+  let m := s_mol sm in
+  exists dl dn, f_density (m_labile m) = Some dl /\ f_density (m_natural m) = Some dn /\
+    (0 < m_vol m -> dl == TEN24 * (f_mass E (m_labile m) / NA) / m_vol m /\
+                    dn == TEN24 * (m_mass m / NA) / m_vol m) /\
+    (m_vol m <= 0 -> dl == 0 /\ dn == 0).
+Proof.
+  intros E tab name s sm H. destruct (sequence_of_inv _ _ _ _ _ H) as [parts [_ [Hm _]]].
+  rewrite sequence_of_parts_eq in Hm. cbv zeta.
+  destruct (molecule_fields _ _ _ _ _ _ Hm) as [_ [Hv _]]. rewrite Hv.
+  exact (molecule_density _ _ _ _ _ _ Hm).
+Qed.
+
+Lemma no_colon_keys : forall ts ty tab, map fst ts = ["aa"; "dna"; "rna"]%string ->
+  tables_get ts ty = Some tab -> contains_char ":" ty = false.
+Proof.
+  intros ts ty tab Hk Ht. apply tables_get_in in Ht. apply (in_map fst) in Ht. rewrite Hk in Ht.
+  simpl in Ht. destruct Ht as [<-|[<-|[<-|[]]]]; reflexivity.
+Qed.
+
+(* formula("aa:..."), formula("dna:..."), formula("rna:...") give the labile formula of the
+   corresponding Sequence (or raise what it raises) *)
+Theorem prefix_equals_class_tables : forall ts ty tab s, the_tables = FOk ts ->
+  tables_get ts ty = Some tab ->
+  formula_of_string the_env the_ptable ts (ty ++ ":" ++ s) = labile_of (sequence_of the_env tab None s).
+Proof.
+  intros ts ty tab s H Ht. apply prefix_equals_class_gen; [exact Ht|].
+  exact (no_colon_keys _ _ _ (the_tables_keys _ H) Ht).
+Qed.
+
+(* with the tables of this source tree: the masses of a sequence are the sums of the masses its
+   residues' table entries carry *)
+Theorem sequence_mass_is_sum_tables : forall ts ty tab name s sm, the_tables = FOk ts ->
+  tables_get ts ty = Some tab -> sequence_of the_env tab name s = FOk sm ->
+  exists parts,
+    Forall2 (fun c p => tab_get tab (code_key c) = Some p) (chars (clean s)) parts /\
+    m_mass (s_mol sm) == qsum (map m_mass parts) /\ m_Dmass (s_mol sm) == qsum (map m_Dmass parts).
+Proof.
+  intros ts ty tab name s sm H Ht Hs.
+  exact (sequence_mass_is_sum _ _ _ _ _ (the_tables_consistent _ _ _ H Ht) Hs).
 Qed.
